@@ -33,7 +33,7 @@ func VerifC20_ErrorEncoder() {
 	enc := ErrorEncoder(factory, formatter)
 	m0, m1 := nondetString("m0", 1), nondetString("m1", 1)
 	w0, w1 := &verifRW{h: http.Header{}}, &verifRW{h: http.Header{}, status: -1}
-	verifConcurrently(
+	verifInterleave(
 		func() { enc(context.Background(), w0, goa.PermanentError("e0", "%s", m0)) },
 		func() { enc(context.Background(), w1, errors.New(m1)) },
 	)
@@ -48,7 +48,7 @@ func VerifC20_EncodersDecoders() {
 	a0, a1 := accepts[nondetChoice("a0", len(accepts))], accepts[nondetChoice("a1", len(accepts))]
 	var k0, k1 int
 	var h0, h1 string
-	verifConcurrently(
+	verifInterleave(
 		func() { k0, _, h0, _, _ = verifRespRoundTrip(a0, "", "") },
 		func() { k1, _, h1, _, _ = verifRespRoundTrip(a1, "", "") },
 	)
@@ -68,7 +68,7 @@ func VerifC20_MuxVars() {
 	u0, err0 := url.ParseRequestURI("/a/" + url.PathEscape(x))
 	u1, err1 := url.ParseRequestURI("/b/" + url.PathEscape(y))
 	verifAssume(err0 == nil && err1 == nil && x != "")
-	verifConcurrently(
+	verifInterleave(
 		func() { m.ServeHTTP(&verifRW{h: http.Header{}}, &http.Request{Method: "GET", URL: u0, Header: http.Header{}}) },
 		func() { m.ServeHTTP(&verifRW{h: http.Header{}}, &http.Request{Method: "GET", URL: u1, Header: http.Header{}}) },
 	)
@@ -97,7 +97,7 @@ func VerifC20_MuxVarsFromMiddleware() {
 	u0, err0 := url.ParseRequestURI("/a/" + url.PathEscape(x))
 	u1, err1 := url.ParseRequestURI("/b/" + url.PathEscape(y))
 	verifAssume(err0 == nil && err1 == nil && x != "")
-	verifConcurrently(
+	verifInterleave(
 		func() {
 			m.ServeHTTP(&verifRW{h: http.Header{}}, &http.Request{Method: "GET", URL: u0, Header: http.Header{"X-Req": {"0"}}})
 		},
@@ -125,7 +125,7 @@ func VerifC20_TextDecoderBytes() {
 	verifAssert("decoded-bytes-stay-those-of-their-own-request", ok)
 	var s0 string
 	var p0, p1 []byte
-	verifConcurrently(
+	verifInterleave(
 		func() { newTextDecoder(strings.NewReader(b0), "text/plain").Decode(&p0) },
 		func() { newTextDecoder(strings.NewReader(b1), "text/plain").Decode(&p1); newTextDecoder(strings.NewReader(b1), "text/html").Decode(&s0) },
 	)
